@@ -30,7 +30,7 @@ fi
   echo "."
 } > $B/Extract.v
 (cd $B && coqc -Q $HERE/../coq/theories Ekit Extract.v >/dev/null)
-cp zutil.ml registry.ml $DRVS main.ml $B/
+cp zutil.ml registry.ml lockstep.ml $DRVS main.ml $B/
 cd $B
 rm -f Extract.v Extract.vo Extract.glob
 ORDER=$(ocamlfind ocamldep -sort $(ls *.mli *.ml | grep -v '^main.ml$'))
